@@ -76,6 +76,22 @@ def _unwrap_payload(r, stop=None, body=None):
     return r
 
 
+def _resolve_join(t, b):
+    """A local that joins `Ok(x)` of an expanded fallible helper with its error returns (seen through `?`) stands for x; anything else is left as it is."""
+    p = peel(t, transparent=ID_CALLS)
+    q = p
+    # x? : (Try::branch(v) as Continue).0
+    if isinstance(q, tuple) and len(q) == 3 and q[0] == "field" and isinstance(q[1], tuple) and q[1][0] == "downcast" and q[1][2] == "Continue":
+        inner = peel(q[1][1], transparent=[])
+        if is_call(inner, "Try::branch"):
+            q = peel(inner[2][0], transparent=ID_CALLS)
+    if isinstance(q, tuple) and len(q) == 2 and q[0] == "var":
+        r = _unwrap_payload(q, None, b)
+        if r != q:
+            return r
+    return t
+
+
 def _proj_from(r, arg, caps, facts, body=None):
     """r expressed as a projection of `arg` (closure parameter or loop element)."""
     r = _unwrap_payload(r, arg, body)
@@ -144,10 +160,10 @@ def iter_seq(b, t, depth=0):
         inner = _strip(t[2][0])
         if is_call(inner, ITER_OF + ["Iterator::map", "Iterator::chain", "iter::once", "std::iter::once", "core::iter::once"]):
             return iter_seq(b, inner, depth + 1)
-        return [("each", peel(inner, transparent=ID_CALLS), (), t[3])]
+        return [("each", peel(_resolve_join(inner, b), transparent=ID_CALLS), (), t[3])]
     if t[0] in ("param", "field", "var"):
-        # a collection used directly as `for x in &coll`
-        return [("each", peel(t, transparent=ID_CALLS), (), None)]
+        # a collection used directly as `for x in &coll` (a local joining the Ok of an expanded fallible helper with its error returns stands for that Ok value)
+        return [("each", peel(_resolve_join(t, b), transparent=ID_CALLS), (), None)]
     return None
 
 
